@@ -3,8 +3,8 @@
 
    Vocabulary (Model/Process.v): a table maps descriptor numbers to (open file,
    FD_CLOEXEC); [us] is pipes[0..stdio_count-1][1] as uv__process_child_init
-   receives it (None = -1); [child_init us exec_errno t] is the child from
-   process.c:320 to the exec; [spawn_child] is uv__spawn_and_init_child;
+   receives it (None = -1); [child_init us error_fd exec_errno t] is the child
+   from process.c:320 to the exec; [spawn_child] is uv__spawn_and_init_child;
    [uv_spawn] and [run] are the parent and the loop. *)
 From UV Require Import Lib.Base Model.Process Proofs.ProcessProofs.
 
@@ -20,9 +20,10 @@ From UV Require Import Lib.Base Model.Process Proofs.ProcessProofs.
    FD_CLOEXEC.  Hence, when every descriptor of the parent that is not the
    target of a mapping is FD_CLOEXEC, nothing else is open in the child. *)
 Theorem C12_child_fds :
-  forall (t : tbl) (us : list (option nat)),
+  forall (t : tbl) (us : list (option nat)) (efd : nat),
   sources_open t us ->
-  exists t', child_init us None t = CExec t' /\
+  get t efd <> None ->                      (* error_fd is open (the error pipe) *)
+  exists t', child_init us efd None t = CExec t' /\
     (forall i, i < length us ->
        get t' i = match nth i us None with
                   | Some u => option_map (fun e => mkE (e_file e) false) (get t u)
@@ -33,28 +34,31 @@ Theorem C12_child_fds :
     (others_cloexec t us ->
      forall d, get t' d <> None -> d < length us /\ (d < 3 \/ nth d us None <> None)).
 Proof.
-  intros t us Ho. destruct (child_fds t us Ho) as (t' & E & A & B).
+  intros t us efd Ho He. destruct (child_fds t us efd Ho He) as (t' & E & A & B).
   exists t'. split; [exact E|]. split; [exact A|]. split; [exact B|]. split.
   - intros d e H. unfold child_init in E.
-    destruct (pass1 (length us) 0 us t) as [[t1 us1]|]; [|discriminate].
+    destruct (move_efd (length us) efd t) as [[t0 efd1]|]; [|discriminate].
+    destruct (pass1 (length us) 0 us t0) as [[t1 us1]|]; [|discriminate].
     destruct (pass2 (length us) 0 us1 t1); [|discriminate].
     inversion E; subst. exact (exec_cx_clear _ _ _ H).
-  - intros Hc. exact (child_no_other t us t' Ho Hc E).
+  - intros Hc. exact (child_no_other t us efd t' Ho He Hc E).
 Qed.
 Print Assumptions C12_child_fds.
 
-(* the hypotheses are satisfiable by a non-trivial layout: 0,1,2 and two files
-   on 3 (close-on-exec) and 7; swap of 1 and 2, 3 from 7, 4 from 3, 5 ignored *)
+(* the hypotheses are satisfiable by a non-trivial layout: 0,1,2, a file on 3
+   (close-on-exec), the error pipe on 4 (inside the target range, so it is
+   moved first; its copies are close-on-exec and gone after exec) and a file
+   on 7; swap of 1 and 2, 3 from 7, 4 from 3, 5 ignored *)
 Example C12_child_fds_example :
   let t := [Some (mkE 1 false); Some (mkE 2 false); Some (mkE 3 false);
-            Some (mkE 4 true); None; None; None; Some (mkE 5 true)] in
+            Some (mkE 4 true); Some (mkE 9 true); None; None; Some (mkE 5 true)] in
   let us := [Some 0; Some 2; Some 1; Some 7; Some 3; None] in
-  sources_open t us /\ others_cloexec t us /\
-  child_init us None t =
-    CExec [Some (mkE 1 false); Some (mkE 3 false); Some (mkE 2 false);
-           Some (mkE 5 false); Some (mkE 4 false); None; None; None; None].
+  sources_open t us /\ others_cloexec t us /\ get t 4 <> None /\
+  exists t', child_init us 4 None t = CExec t' /\
+    dump t' = [(0, mkE 1 false); (1, mkE 3 false); (2, mkE 2 false);
+               (3, mkE 5 false); (4, mkE 4 false)].
 Proof.
-  cbv zeta. split; [|split; [|vm_compute; reflexivity]].
+  cbv zeta. split; [|split; [|split; [discriminate|eexists; split; vm_compute; reflexivity]]].
   - intros k u Hk.
     do 6 (destruct k as [|k]; [inversion Hk; subst; vm_compute; discriminate|]).
     destruct k; discriminate.
@@ -112,48 +116,65 @@ Print Assumptions C12_spawn_stdio_parent.
 
 (* ---- the error pipe ------------------------------------------------------ *)
 
-(* If the write end of the error pipe is at or above stdio_count, or on an
-   unmapped slot >= 3, the errno of a failing exec reaches the parent:
-   uv__spawn_and_init_child returns -errno and has reaped the child. *)
+(* Wherever pipe2 put the error pipe (commit a79de05 moves it above stdio_count
+   in the child before the shuffle): the errno of a failing exec reaches the
+   parent, uv__spawn_and_init_child returns -errno and has reaped the child. *)
 Theorem C12_exec_failure_reported :
-  forall t us fresh e wo t1 rfd t2 wfd,
-  alloc t 0 fresh true = (t1, rfd) ->          (* pipe2: read end *)
-  alloc t1 0 (S fresh) true = (t2, wfd) ->     (* write end = error_fd *)
+  forall t us fresh e wo,
   sources_open t us ->
-  (length us <= wfd \/ (3 <= wfd /\ nth wfd us None = None)) ->
   sc_ret (spawn_child t us fresh false false (Some e) wo) = (- e)%Z /\
   sc_reaped (spawn_child t us fresh false false (Some e) wo) = Some (fst (wait_retry wo)).
 Proof. exact exec_failure_reported. Qed.
 Print Assumptions C12_exec_failure_reported.
 
-(* Without that hypothesis the statement is false: the error pipe is created
-   after the stdio pairs, lands on a number below stdio_count, pass 2 dup2()s a
-   stdio source over it, the child writes the errno into the user's file and
-   the parent sees EOF = success (DESIGN section 3 item 11). *)
-Theorem C12_error_pipe_clobbered_refuted :
-  ~ (forall t us fresh e wo, sources_open t us ->
-       sc_ret (spawn_child t us fresh false false (Some e) wo) = (- e)%Z).
-Proof.
-  intros H. destruct error_pipe_clobbered_witness as (Ho & E).
-  specialize (H _ _ 10 2%Z [] Ho). rewrite E in H. discriminate.
-Qed.
-Print Assumptions C12_error_pipe_clobbered_refuted.
+(* A failed spawn is clean: for every parent table and every list of
+   UV_IGNORE / UV_INHERIT_FD (open) / UV_CREATE_PIPE containers, when execvp
+   fails with errno e, uv_spawn returns -e, the handle is not activated, the
+   child has been reaped by the blocking waitpid, every descriptor of the
+   parent that was not handed to one of the caller's streams is what it was
+   before the call, and no exit callback ever runs for the handle. *)
+Theorem C12_failed_spawn_clean :
+  forall sp wo e,
+  (forall c, In c (s_stdio sp) -> c <> SBad) ->
+  (forall i fd, nth_error (s_stdio sp) i = Some (SFd fd) -> get (s_tbl sp) fd <> None) ->
+  s_sp_fail sp = None -> s_pipe_fail sp = false -> s_fork_fail sp = false ->
+  s_exec_err sp = Some e -> e <> 0%Z ->
+  let r := fst (uv_spawn sp wo) in
+  r_ret r = (- e)%Z /\ r_active r = false /\ r_reaped r = Some (fst (wait_retry wo)) /\
+  (forall d, (forall i, ~ In (i, d) (r_streams r)) -> get (r_ptbl r) d = get (s_tbl sp) d) /\
+  (forall ops h s' evs, NoDup (spawn_handles ops) -> run linit ops = (s', evs) ->
+     In (OSpawn h sp wo) ops -> forall es ts, ~ In (h, es, ts) (exits evs)).
+Proof. exact failed_spawn_clean. Qed.
+Print Assumptions C12_failed_spawn_clean.
 
-(* the same witness seen through uv_spawn and the loop: ENOENT, yet uv_spawn
-   returns 0, the handle is active, the int -2 goes into the file behind
-   descriptor 1, and exit_cb(127, 0) runs later *)
-Theorem C12_failed_spawn_clean_refuted :
+(* the former counterexample (0,1,2 open, six inherited slots, ENOENT), now *)
+Example C12_failed_spawn_clean_example :
   exists sp, s_exec_err sp = Some 2%Z /\
-    r_ret (fst (uv_spawn sp [])) = 0%Z /\
-    r_active (fst (uv_spawn sp [])) = true /\
-    r_wrote (fst (uv_spawn sp [])) = Some (Some 2, (-2)%Z) /\
-    exits (snd (run linit [OSpawn 0 sp []; OScan [WPid 32512%Z]])) = [(0, 127%Z, 0%Z)].
-Proof. exists clobber_spec. split; [reflexivity|]. exact clobber_run. Qed.
-Print Assumptions C12_failed_spawn_clean_refuted.
+    r_ret (fst (uv_spawn sp [WPid 32512%Z])) = (-2)%Z /\
+    r_active (fst (uv_spawn sp [WPid 32512%Z])) = false /\
+    r_reaped (fst (uv_spawn sp [WPid 32512%Z])) = Some (Some (WPid 32512%Z)) /\
+    exits (snd (run linit [OSpawn 0 sp [WPid 32512%Z]; OScan []])) = [].
+Proof. exists clobber_spec. split; [reflexivity|]. exact clobber_spec_now. Qed.
+Print Assumptions C12_failed_spawn_clean_example.
 
-(* what does hold for failed spawns: whenever uv_spawn returns an error the
-   handle is not queued and no exit callback ever runs for it ... *)
-Theorem C12_failed_spawn_clean_partial :
+(* History (before commit a79de05, DESIGN section 3 item 11): without the move
+   of error_fd the same input made the parent compute exec_errorno = 0 - the
+   error pipe landed on 3/4, pass 2 dup2()ed a stdio source over 4, the child
+   wrote the errno into the user's file and the parent saw EOF.  The current
+   model returns -2 on it. *)
+Theorem C12_history_error_pipe_clobbered_before_a79de05 :
+  let t := [Some (mkE 1 false); Some (mkE 2 false); Some (mkE 3 false)] in
+  let us := [Some 0; Some 1; Some 2; Some 0; Some 1; Some 2] in
+  sources_open t us /\
+  exec_errorno_unfixed t us 10 2%Z = 0%Z /\
+  sc_ret (spawn_child t us 10 false false (Some 2%Z) []) = (-2)%Z.
+Proof. exact error_pipe_clobbered_before_a79de05. Qed.
+Print Assumptions C12_history_error_pipe_clobbered_before_a79de05.
+
+(* any other failing uv_spawn (EINVAL, socketpair/pipe2/fork failure, a child
+   that cannot set up its descriptors): the handle is not queued and no exit
+   callback ever runs for it ... *)
+Theorem C12_failed_spawn_never_called_back :
   forall ops s' evs h sp wo,
   NoDup (spawn_handles ops) -> run linit ops = (s', evs) ->
   In (OSpawn h sp wo) ops -> r_ret (fst (uv_spawn sp wo)) <> 0%Z ->
@@ -164,7 +185,7 @@ Proof.
   - exact (ret_nonzero_inactive sp wo Hr).
   - exact (failed_spawn_no_exit ops s' evs h sp wo N R I Hr).
 Qed.
-Print Assumptions C12_failed_spawn_clean_partial.
+Print Assumptions C12_failed_spawn_never_called_back.
 
 (* ... and a uv_spawn without UV_CREATE_PIPE slots leaves the parent's table as
    it was on every path (success, EINVAL, pipe2/fork/exec failure): every
